@@ -21,6 +21,10 @@ C05.mask   ClientSubnet's host-bit mask: for all 256 octet values and all 7
            set" holds exactly when the masking store changes the octet (the
            guard and the mask are two spellings of one condition; evaluated
            over the finite domain, nothing is run).
+C05.forge  unchecked-constructor audit for the length-limited wrappers
+           (Nsec3Salt, OwnerHash, CaaTag; at most 255 octets): every call of
+           their unsafe constructors is validator-dominated, a re-wrap, behind
+           a length bound, or audited (same rule as C03.forge).
 C05.disp   each type's parse_rdata / rtype() use its own RTYPE, RTYPE equals
            the IANA number, RTYPEs are pairwise distinct, the enum dispatchers
            call the same-named method in every arm, unknown types fall back to
@@ -74,6 +78,16 @@ def run(ctx):
     rule_push(ctx, F)
     rule_mask(ctx, F)
     rule_varlen(ctx, F)
+    import c03
+    c03.rule_forge(ctx, F, R="C05.forge",
+                   validated=("rdata::nsec3::Nsec3Salt", "rdata::nsec3::OwnerHash", "rdata::caa::CaaTag"),
+                   len_limit={"rdata::nsec3::Nsec3Salt": 255, "rdata::nsec3::OwnerHash": 255, "rdata::caa::CaaTag": 255},
+                   audit=[
+                       (r"^rdata::nsec3::(Nsec3Salt|OwnerHash)::<Octs>::parse(::\{closure#0\})?$",
+                        "the length comes from a single length octet (parse_u8) and parse_octets(len) is checked: at most 255 octets"),
+                       (r"^<rdata::nsec3::Nsec3Salt<Octs> as core::str::FromStr>::from_str$", "the `-` arm builds the empty salt from an empty builder"),
+                       (r"^rdata::nsec3::(Nsec3Salt|OwnerHash)::<.*>::(empty|from_octets)$", "checked constructor / constant"),
+                   ], floor=6, min_ctors=3)
     for adt, rb, ok, names in sigs.rdlen_compress_agreement(F):
         ctx.ob("C05.rdlen", adt, "no announced length when names are compressed", ok,
                "%s::rdlen(compress = true) announces a length although compose_rdata compresses %s on a compressing "
